@@ -181,6 +181,11 @@ def make_scenario(seed, idx, tool):
             u = utts[i_short]
             u["n"] = min(u["n"], 3)
             u["channels"] = max(u["channels"], u["n"] + 1)
+        if comp is not None and comp["name"] == "stft":
+            # a recording of exactly (k + 1/2) frame shifts with k even (a tie of the rounding rule for the number of frames)
+            fs_ = int(0.001 * comp["frame_shift_ms"] * rate)
+            if fs_ % 2 == 0 and b not in (i_one, i_short):
+                utts[b]["n"] = (2 * (3 + idx % 4)) * fs_ + fs_ // 2
         if idx % 2 == 1:
             # a file name with a run of blanks and a tab in it: the map's format is "<id> <path>", the path being the rest of the line
             utts[(a + 1) % len(utts)]["spaced"] = True
@@ -594,6 +599,21 @@ def run_case(case, rec, mon=None):
                       sorted(want_m - set(resm["out"])), sorted(set(resm["out"]) - want_m)), check="key_set_manifest")
                 elif any(not np.array_equal(resm["out"][k], res["out"][k]) for k in want_m if res["out"].get(k) is not None):
                     v("an utterance computed in a run with a manifest differs from the same utterance of the run without (fixed --seed)", check="manifest_value")
+            if tool == "torch" and scn["computer"] is not None and scn["idx"] % 3 == 1:
+                # ---- two runs in one process that name the *same* configuration file, edited in between: each run uses the file as it is
+                alt = copy.deepcopy(scn["computer"])
+                alt["include_energy"] = not alt.get("include_energy", False)
+                alt["use_power"] = not alt.get("use_power", False)
+                for which, c2 in (("first", alt), ("second", scn["computer"])):
+                    s2 = dict(scn, computer=c2)
+                    shutil.rmtree(os.path.join(d, "out_shared"), ignore_errors=True)
+                    r2 = runner(s2, d, path, "json" if scn["idx"] % 2 else "yaml", scn["seed_opt"], "shared", stats_path)
+                rec.count("runs_naming_one_configuration_file_edited_in_between")
+                if r2["rc"] not in (0, None):
+                    v("torch tool returned %r on the second use of an edited configuration file" % (r2["rc"],), check="exit_code")
+                elif set(r2["out"]) != set(res["out"]) or any(r2["out"][k] is None or res["out"][k] is None or r2["out"][k].shape != res["out"][k].shape
+                                                              or (not dither_on and not np.array_equal(r2["out"][k], res["out"][k])) for k in res["out"]):
+                    v("a run naming a configuration file that was edited since an earlier run in the same process does not use the file as it is now", check="config_file_reread")
             if scn["kind"] == "dither":
                 # two separate interpreter processes, as two invocations of the console script would be
                 outs = []
